@@ -451,8 +451,12 @@ where
                     return Err(Error::InvalidCommitment);
                 }
 
-                path.verify(leaf_hash_param, two_to_one_hash_param, root, leaf.clone())
-                    .map_err(|_| Error::InvalidCommitment)?;
+                if !path
+                    .verify(leaf_hash_param, two_to_one_hash_param, root, leaf.clone())
+                    .map_err(|_| Error::InvalidCommitment)?
+                {
+                    return Err(Error::InvalidCommitment);
+                }
             }
 
             // Helper closure: checks if a.b = c.
